@@ -238,8 +238,11 @@ impl<'a> MessageParser<'a> {
 
     /// Detect which variant is present for an enum field
     fn detect_variant(&self, base_tag: &str) -> Result<String, ParseError> {
-        // Look for common variants in order of preference
-        let common_variants = vec!["A", "B", "C", "D", "F", "K", "L"];
+        // Look for any option letter
+        let common_variants = vec![
+            "A", "B", "C", "D", "E", "F", "G", "H", "I", "J", "K", "L", "M", "N", "O", "P", "Q",
+            "R", "S", "T", "U", "V", "W", "X", "Y", "Z",
+        ];
 
         // Get the remaining input
         let remaining = &self.input[self.position..];
@@ -270,7 +273,10 @@ impl<'a> MessageParser<'a> {
     /// Detect variant for optional fields
     pub fn detect_variant_optional(&self, base_tag: &str) -> Option<String> {
         // Look for common variants
-        let common_variants = vec!["A", "B", "C", "D", "F", "K", "L"];
+        let common_variants = vec![
+            "A", "B", "C", "D", "E", "F", "G", "H", "I", "J", "K", "L", "M", "N", "O", "P", "Q",
+            "R", "S", "T", "U", "V", "W", "X", "Y", "Z",
+        ];
 
         // Get the remaining input
         let remaining = &self.input[self.position..];
